@@ -15,6 +15,7 @@ for f in src.iterdir():
 demo = next((dest / n for n in ('demo.py', 'demo.sh') if (dest / n).exists()), None)
 wt = tempfile.mkdtemp(prefix='seed-')
 subprocess.run(['git', '-C', '/repo', 'worktree', 'add', '--detach', wt, 'HEAD'], check=True, capture_output=True)
+old_meta = json.loads((dest / 'meta.json').read_text()) if (dest / 'meta.json').exists() else {}
 meta = {'property': prop, 'name': name, 'repo_head': subprocess.run(['git', '-C', '/repo', 'rev-parse', 'HEAD'], capture_output=True, text=True).stdout.strip()}
 try:
     def run_demo():
@@ -52,5 +53,9 @@ notes = (dest / 'notes.md').read_text() if (dest / 'notes.md').exists() else ''
 meta['needs_to_manifest'] = notes[:1500]
 meta['confirmed'] = bool(meta.get('patch_applies') and meta.get('demo_clean_rc') == 0 and meta.get('demo_patched_rc') not in (0, None)
                          and '107 passed' in meta.get('pytest_tail', ''))
+if old_meta:      # a re-evaluation: keep what the first evaluation found
+    meta['first_evaluation'] = old_meta.get('first_evaluation') or {k: old_meta.get(k) for k in ('repo_head', 'check_detected', 'check_rc', 'check_first_signatures')}
+    if old_meta.get('followup'):
+        meta['followup'] = old_meta['followup']
 (dest / 'meta.json').write_text(json.dumps(meta, indent=1) + '\n')
 print(json.dumps({k: meta[k] for k in ('property', 'name', 'confirmed', 'check_detected', 'check_rc', 'demo_clean_rc', 'demo_patched_rc', 'pytest_tail', 'check_first_signatures')}, indent=1))
